@@ -406,6 +406,34 @@ func genRBS(r *Rng) ([]byte, []rbsMethodModel) {
 		}
 		decls = append(decls, mkClass(cn, cn, 0))
 	}
+	if r.Chance(1, 5) {
+		// a parent and a child that both declare a method of one name, with the same keyword
+		// names but other optionality / arity: each class answers with its own declaration
+		mkDev := func(name string, super any, sig rbsSig) map[string]any {
+			initFunc := rbsFunc(r, rbsSig{Untyped: true})
+			initFunc["return_type"] = map[string]any{"class": "void"}
+			return map[string]any{"declaration": "class", "name": name, "type_params": []any{}, "super_class": super, "comment": nil, "members": []any{
+				map[string]any{"member": "method_definition", "name": "initialize", "kind": "instance", "visibility": "public", "comment": nil,
+					"overloads": []any{map[string]any{"method_type": map[string]any{"type_params": []any{}, "block": nil, "type": initFunc}}}},
+				map[string]any{"member": "method_definition", "name": "open_dev", "kind": "instance", "visibility": "public", "comment": nil,
+					"overloads": []any{map[string]any{"method_type": map[string]any{"type_params": []any{}, "block": nil, "type": rbsFunc(r, sig)}}}},
+			}}
+		}
+		kws := []string{"mode", "flags"}
+		s1 := rbsSig{Req: r.Intn(3), Untyped: true}
+		s2 := rbsSig{Req: r.Intn(3), Opt: r.Intn(2), Untyped: true}
+		if r.Chance(1, 2) {
+			s1.ReqKw, s2.OptKw = kws[:1], kws[:1]
+		} else {
+			s1.OptKw, s2.ReqKw = kws[:r.Range(1, 2)], kws[:1]
+		}
+		parent, child := "Devbase", "Devfast"
+		if r.Chance(1, 2) {
+			parent, child = "Zdevbase", "Adevfast" // the child's output file sorts first
+		}
+		decls = append(decls, mkDev(parent, nil, s1), mkDev(child, map[string]any{"name": "::" + parent, "args": []any{}}, s2))
+		models = append(models, rbsMethodModel{Class: parent, Name: "open_dev", Sigs: []rbsSig{s1}}, rbsMethodModel{Class: child, Name: "open_dev", Sigs: []rbsSig{s2}})
+	}
 	b, _ := json.Marshal(decls)
 	return b, models
 }
@@ -525,7 +553,16 @@ func genC(r *Rng) ([]byte, []cMethodModel) {
 				vals = append(vals, "1")
 			}
 		}
-		ret := r.Pick([]string{"return mrb_nil_value();", "return mrb_fixnum_value(1);", "return mrb_str_new_cstr(mrb, \"x\");", "return self;", "return mrb_true_value();"})
+		rets := []string{"return mrb_nil_value();", "return mrb_fixnum_value(1);", "return mrb_str_new_cstr(mrb, \"x\");", "return self;", "return mrb_true_value();", "return mrb_false_value();", "return mrb_float_value(mrb, 1.5);", "return mrb_ary_new(mrb);"}
+		ret := r.Pick(rets)
+		if r.Chance(1, 3) {
+			// an error path that returns something of another kind before the normal result
+			early := r.Pick(rets)
+			if r.Chance(1, 3) {
+				early += "\n  }\n  if (!hw_ok()) {\n    " + r.Pick(rets)
+			}
+			ret = "if (hw_error()) {\n    " + early + "\n  }\n  " + ret
+		}
 		switch style {
 		case 0, 1:
 			mm.Style = "mrb_define_class_method"
@@ -572,11 +609,30 @@ func genC(r *Rng) ([]byte, []cMethodModel) {
 				return xs
 			}
 			seen := map[int]bool{}
+			valByIdx := map[int]string{}
+			getterByIdx := map[int]string{}
 			decl := func(i int) string {
 				if seen[i] {
-					return fmt.Sprintf("v%d = GET_INT_ARG(%d);\n", i, i)
+					// read once more, through the same getter
+					return fmt.Sprintf("(void)%s;\n", getterByIdx[i])
 				}
 				seen[i] = true
+				switch r.Intn(6) {
+				case 0:
+					valByIdx[i], getterByIdx[i] = "1.5", fmt.Sprintf("GET_FLOAT_ARG(%d)", i)
+					return fmt.Sprintf("double v%d = GET_FLOAT_ARG(%d);\n", i, i)
+				case 1:
+					valByIdx[i], getterByIdx[i] = "\"s\"", fmt.Sprintf("GET_STRING_ARG(%d)", i)
+					return fmt.Sprintf("const char *v%d = (const char *)GET_STRING_ARG(%d);\n", i, i)
+				case 2:
+					// the same argument read through two typed getters, chosen by its type tag
+					valByIdx[i], getterByIdx[i] = "1", fmt.Sprintf("GET_TT_ARG(%d)", i) // an Integer satisfies whichever getter decides the type
+					return fmt.Sprintf("double v%d = (GET_TT_ARG(%d) == MRBC_TT_FLOAT) ? GET_FLOAT_ARG(%d) : (double)GET_INT_ARG(%d);\n", i, i, i, i)
+				case 3:
+					valByIdx[i], getterByIdx[i] = "[1]", fmt.Sprintf("GET_ARY_ARG(%d)", i)
+					return fmt.Sprintf("mrbc_value *v%d = GET_ARY_ARG(%d).array;\n", i, i)
+				}
+				getterByIdx[i] = fmt.Sprintf("GET_INT_ARG(%d)", i)
 				return fmt.Sprintf("int v%d = GET_INT_ARG(%d);\n", i, i)
 			}
 			for _, i := range order(1, r0) {
@@ -602,6 +658,11 @@ func genC(r *Rng) ([]byte, []cMethodModel) {
 			}
 			ret = "SET_INT_RETURN(1);"
 			vals = []string{"1", "1", "1", "1", "1", "1", "1", "1"}
+			for i, v := range valByIdx {
+				if i >= 1 && i <= len(vals) {
+					vals[i-1] = v
+				}
+			}
 			fmt.Fprintf(&sb, "static void\n%s(mrbc_vm *vm, mrbc_value v[], int argc)\n{\n%s  %s\n}\n\n", fn, body, ret)
 			fmt.Fprintf(&defs, "  mrbc_define_method(0, cls, \"%s\", %s);\n", mm.Name, fn)
 			mm.ArgVals = vals
